@@ -134,6 +134,23 @@ def r3(ctx: Ctx) -> None:
                        lineno=c.lineno)
 
 
+_PLAIN_DECORATORS = {"staticmethod", "classmethod", "property", "dataclass", "abstractmethod", "overload", "wraps"}
+
+
+def _undecorated(ctx: Ctx, funcs) -> None:
+    """a decorator that is not one of the declaration kinds wraps the function in something else: a memo table kept in the
+    wrapper's closure is process-wide state that no inventory of module-level names sees"""
+    for f in funcs:
+        for d in f.node.decorator_list:
+            core = d.func if isinstance(d, ast.Call) else d
+            nm = core.id if isinstance(core, ast.Name) else (core.attr if isinstance(core, ast.Attribute) else "")
+            if nm.endswith("setter") or nm.endswith("getter") or nm in _PLAIN_DECORATORS:
+                continue
+            ctx.report(f.where, f"decorated {nm}", f"{f.qualname} is wrapped by the decorator '{nm}': what it returns is then decided by the wrapper (a cache "
+                       "keyed by rounded or partial arguments answers a query with the result of an earlier, different one)", lineno=f.node.lineno)
+    ctx.site(funcs[0].module.relpath if funcs else FORCE, "no wrapping decorators on the functions of the tool", functions=len(funcs))
+
+
 @rule("C13", "R4.deterministic", "NONDET",
       "no source of nondeterminism (random, time, id/hash-ordered iteration over sets) in the relocation code", floor=3)
 def r4(ctx: Ctx) -> None:
@@ -164,6 +181,7 @@ def r4(ctx: Ctx) -> None:
             ctx.report(f.where, f"nondeterminism {ast.unparse(x)[:60]}", f"{f.qualname} (reachable from the relocation entry points) uses a nondeterministic source",
                        lineno=x.lineno)
     ctx.site(FORCE, "functions scanned (tool + reachable frame library)", functions=n)
+    _undecorated(ctx, [f for f in allf if f.module.relpath == FORCE])
     # hidden state: a memoised helper or a module-level object in the relocation code makes the result depend on what was
     # relocated before in the same process (the C20 inventory, restricted to the code the relocation runs)
     from . import C20 as _c20
